@@ -3293,7 +3293,8 @@ impl LineBuf {
 				let slice = self.slice(start..end)
 					.unwrap_or_default();
 				let rot13 = rot13(slice);
-				self.buffer.replace_range(start..end, &rot13);
+				// start and end are grapheme indices, not byte offsets
+				self.replace_range(start, end, &rot13);
 				self.cursor.set(start);
 			}
 			Verb::ReplaceChar(ch) => {
